@@ -1,6 +1,7 @@
 package interp
 
 import (
+	"strings"
 	"fmt"
 	"go/types"
 	"sort"
@@ -138,6 +139,7 @@ func addJSONIntrinsics(t map[string]intrinsic) {
 			bs = m.mkStr("n").B
 		} else {
 			bs = m.jsonModel(itf.V, itf.T, 0)
+			m.noteMarshalled(bs, itf)
 		}
 		return Tuple{m.bytesToSlice(bs), Iface{}}
 	}
@@ -156,7 +158,13 @@ func addJSONIntrinsics(t map[string]intrinsic) {
 			pt, _ := target.T.Underlying().(*types.Pointer)
 			mt, isMap := pt.Elem().Underlying().(*types.Map)
 			if !isMap {
-				m.unsupported("%s.Unmarshal into %v is not modelled", tag, pt.Elem())
+				// decode(encode(v)) == v: bytes produced by Marshal on this path decode into a copy of the
+				// value they were produced from (same type)
+				if src, ok := m.marshalledValue(data, pt.Elem()); ok {
+					m.store(cell, src)
+					return Iface{}
+				}
+				m.unsupported("%s.Unmarshal into %v of bytes that were not produced by Marshal of that type on this path is not modelled", tag, pt.Elem())
 			}
 			if len(data) == 0 {
 				et := m.lookupType("errors", "errorString")
@@ -175,4 +183,87 @@ func addJSONIntrinsics(t map[string]intrinsic) {
 	t["gopkg.in/yaml.v3.Unmarshal"] = unmarshal("yaml")
 }
 
+type marshalRec struct {
+	t types.Type
+	v Value
+}
+
+func termsKey(bs []*sym.Term) string {
+	var sb strings.Builder
+	for _, b := range bs {
+		sb.WriteString(strconv.Itoa(b.ID))
+		sb.WriteByte(',')
+	}
+	return sb.String()
+}
+
+func (m *Machine) noteMarshalled(bs []*sym.Term, itf Iface) {
+	t, v := itf.T, itf.V
+	if p, ok := t.Underlying().(*types.Pointer); ok {
+		cell, ok := v.(*Value)
+		if !ok || cell == nil {
+			return
+		}
+		t, v = p.Elem(), *cell
+	}
+	if m.marshalled == nil {
+		m.marshalled = map[string]marshalRec{}
+	}
+	m.marshalled[termsKey(bs)] = marshalRec{t, m.deepCopyValue(v)}
+}
+
+func (m *Machine) marshalledValue(data []*sym.Term, want types.Type) (Value, bool) {
+	rec, ok := m.marshalled[termsKey(data)]
+	if !ok || !types.Identical(rec.t, want) {
+		return nil, false
+	}
+	return m.deepCopyValue(rec.v), true
+}
+
 var _ = fmt.Sprint
+
+// deepCopyValue copies a value including what it points to (pointers, slices, maps), as decoding does.
+func (m *Machine) deepCopyValue(v Value) Value {
+	switch x := v.(type) {
+	case Struct:
+		c := make(Struct, len(x))
+		for i, f := range x {
+			c[i] = m.deepCopyValue(f)
+		}
+		return c
+	case Array:
+		c := make(Array, len(x))
+		for i, f := range x {
+			c[i] = m.deepCopyValue(f)
+		}
+		return c
+	case *Value:
+		if x == nil {
+			return x
+		}
+		cell := new(Value)
+		*cell = m.deepCopyValue(*x)
+		return cell
+	case *MapV:
+		if x == nil {
+			return x
+		}
+		c := &MapV{KT: x.KT, VT: x.VT}
+		for _, e := range x.Entries {
+			c.Entries = append(c.Entries, &mapEntry{K: m.deepCopyValue(e.K), V: m.deepCopyValue(e.V)})
+		}
+		return c
+	case Slice:
+		if x.Nil {
+			return x
+		}
+		a := make([]Value, len(x.A))
+		for i, e := range x.A {
+			a[i] = m.deepCopyValue(e)
+		}
+		return Slice{A: a}
+	case Iface:
+		return Iface{T: x.T, V: m.deepCopyValue(x.V)}
+	}
+	return v
+}
